@@ -243,14 +243,24 @@ USERS = {
     'unknown': (1000, dict(curuid=0, pw=None, groups=[])),
     'root_nosetgroups': (1000, dict(curuid=0, pw=('bob', 1000, 100), groups=[7], has_setgroups=False)),
 }
+# configured-but-falsy values: user=root (uid 0), as root and as somebody else
+USERS_F = {
+    'uid0_as_root': (0, dict(curuid=0, pw=('root', 0, 0), groups=[0])),
+    'uid0_as_other': (0, dict(curuid=500, pw=('root', 0, 0), groups=[0])),
+}
+USERS.update(USERS_F)
 
 
 def mk(user, directory, umask, env, urls, redirect, minfds, fcgi, group):
+    """directory: False (not configured) | True ('/the/dir') | a string (also '');
+    umask: False | True (027) | an int (also 0); group: False | True ('grp') | a string (also '')."""
     uid, wpart = USERS[user]
     cfg = dict(name='prog', uid=uid, file='/bin/prog', argv=['prog', '-x'],
-               directory='/the/dir' if directory else None, umask=0o27 if umask else None,
+               directory=(None if directory is False else ('/the/dir' if directory is True else directory)),
+               umask=(None if umask is False else (0o27 if umask is True else umask)),
                environment=env, serverurl=urls[0], options_serverurl=urls[1],
-               redirect_stderr=redirect, minfds=minfds, fcgi=fcgi, group='grp' if group else None)
+               redirect_stderr=redirect, minfds=minfds, fcgi=fcgi,
+               group=(None if group is False else ('grp' if group is True else group)))
     world = dict(environ=ENVIRON, has_setgroups=True)
     world.update(wpart)
     return cfg, world
@@ -262,7 +272,7 @@ def grids(tier):
     B = (False, True)
     rich = (ENV_CHOICES[3], URL_CHOICES[1], True)
     # A: every failure structure
-    for user in USERS:
+    for user in [u for u in USERS if u not in USERS_F]:
         for d, u, red, fcgi in itertools.product(B, B, B, B):
             for minfds in (3, 4, 6):
                 cfg, w = mk(user, d, u, rich[0], rich[1], red, minfds, fcgi, rich[2])
@@ -270,10 +280,20 @@ def grids(tier):
                 if minfds <= 4:
                     out.append(('A_exit_returns', cfg, w, KINDS2, True))
     # B: everything that feeds the environment of execve
-    users_b = ('none', 'root') if tier == 'quick' else tuple(USERS)
+    users_b = ('none', 'root') if tier == 'quick' else tuple(u for u in USERS if u not in USERS_F)
     for env, urls, group, fcgi, user, du in itertools.product(ENV_CHOICES, URL_CHOICES, B, B, users_b, B):
         cfg, w = mk(user, du, du, env, urls, fcgi, 3, fcgi, group)
         out.append(('B', cfg, w, KINDS2, False))
+    # F: configured-but-falsy values in every optional dimension (the code tests `is None` for uid,
+    # directory, umask, environment and config.serverurl, truthiness for the final serverurl and the group object)
+    for user in ('none', 'root', 'uid0_as_root', 'uid0_as_other'):
+        for d, u, minfds, fcgi in itertools.product((False, '', True), (False, 0, True), (0, 3), B):
+            cfg, w = mk(user, d, u, rich[0], rich[1], fcgi, minfds, fcgi, rich[2])
+            out.append(('F_structure', cfg, w, KINDS2, False))
+    for env, urls, group, d, u in itertools.product((None, {}), ((None, None), ('', None), ('', 'unix:///o.sock'), (None, '')),
+                                                    (False, '', True), (False, ''), (False, 0)):
+        cfg, w = mk('none', d, u, env, urls, False, 3, False, group)
+        out.append(('F_environment', cfg, w, KINDS2, False))
     # C: more kinds of exception (second errno, unknown errno, BaseException)
     for d, u, fcgi in itertools.product(B, B, B):
         cfg, w = mk('root', d, u, ENV_CHOICES[2], URL_CHOICES[4], not fcgi, 4, fcgi, True)
@@ -282,7 +302,7 @@ def grids(tier):
     out.append(('C_exit_returns', cfg, w, KINDS4, True))
     if tier == 'thorough':
         # the full product of every dimension for minfds in {3, 4}
-        for user in USERS:
+        for user in [u for u in USERS if u not in USERS_F]:
             for d, u, red, fcgi, group in itertools.product(B, B, B, B, B):
                 for env, urls in itertools.product(ENV_CHOICES, URL_CHOICES):
                     for minfds in (3, 4):
